@@ -161,6 +161,10 @@ theorem cbcStepD_eq (C : Cipher) (st : CbcSt) (buf : Bytes) :
 theorem cbcD_cond (n : Nat) (h : (decide (32 ≤ n) || n == 16) = true) : 16 ≤ n := by
   simp at h; omega
 
+theorem cbcD_cond_stop (k : Nat) (h0 : 0 < k) (h : k < 16) :
+    (decide (32 ≤ 16 + k) || 16 + k == 16) = false := by
+  simp; omega
+
 /-- CBC on whole blocks: lengths, state, and decryption undoes encryption -/
 theorem cbc_whole (f g : Bytes → Bytes) (hlen : ∀ x, x.length = 16 → (f x).length = 16)
     (hgf : ∀ x, x.length = 16 → g (f x) = x) :
@@ -191,5 +195,319 @@ theorem cbc_whole (f g : Bytes → Bytes) (hlen : ∀ x, x.length = 16 → (f x)
       simp only [cbcDB, hgf _ hx16, xorb_xorb_cancel_left iv b (by omega)]
     rw [hbody2]
     simp only [List.length_append, hc, hb, ih1, ih2, ih3, ih4, and_self]
+
+/-! ### ECB: lengths and inversion -/
+
+theorem length_ecbStep (f : Bytes → Bytes) (hlen : ∀ x, x.length = 16 → (f x).length = 16)
+    (buf : Bytes) (h16 : 16 ≤ buf.length) : (ecbStep f buf).length = buf.length := by
+  by_cases hr : buf.length % 16 = 0
+  · rw [ecbStep_whole f buf hr, length_mapB f hlen buf hr]
+  · obtain ⟨pre, last, tail, rfl, hpre, hlast, ht0, ht⟩ := ragged_decomp buf h16 hr
+    rw [ecbStep_ragged f hlen pre last tail hpre hlast ht0 ht]
+    have hfl := hlen last hlast
+    have h2 : (tail ++ (f last).drop tail.length).length = 16 := by
+      simp only [List.length_append, List.length_drop]; omega
+    simp only [List.length_append, length_mapB f hlen pre hpre, hlen _ h2, List.length_take, hlast]
+    omega
+
+theorem ecbStep_ecbStep (f g : Bytes → Bytes) (hlenf : ∀ x, x.length = 16 → (f x).length = 16)
+    (hleng : ∀ x, x.length = 16 → (g x).length = 16) (hgf : ∀ x, x.length = 16 → g (f x) = x)
+    (buf : Bytes) (h16 : 16 ≤ buf.length) : ecbStep g (ecbStep f buf) = buf := by
+  by_cases hr : buf.length % 16 = 0
+  · rw [ecbStep_whole f buf hr, ecbStep_whole g _ (by rw [length_mapB f hlenf buf hr]; exact hr),
+      mapB_mapB f g hlenf hgf buf hr]
+  · obtain ⟨pre, last, tail, rfl, hpre, hlast, ht0, ht⟩ := ragged_decomp buf h16 hr
+    rw [ecbStep_ragged f hlenf pre last tail hpre hlast ht0 ht]
+    have hfl := hlenf last hlast
+    have h2 : (tail ++ (f last).drop tail.length).length = 16 := by
+      simp only [List.length_append, List.length_drop]; omega
+    have h3 : ((f last).take tail.length).length = tail.length := by
+      simp only [List.length_take]; omega
+    rw [ecbStep_ragged g hleng (mapB f pre) _ _ (by rw [length_mapB f hlenf pre hpre]; exact hpre)
+      (hlenf _ h2) (by omega) (by omega)]
+    rw [h3, hgf _ h2, List.drop_left' rfl, List.take_left' rfl, List.take_append_drop, hgf last hlast,
+      mapB_mapB f g hlenf hgf pre hpre]
+
+/-! ### CBC: shapes, lengths and inversion -/
+
+theorem cbcE_whole (f : Bytes → Bytes) (iv x : Bytes) (hx : x.length % 16 = 0) :
+    cbcE f iv x = ((fullBlocks 16 (cbcEB f) iv x).1, (fullBlocks 16 (cbcEB f) iv x).2.1) := by
+  simp only [cbcE, fullBlocks_whole_rest _ x hx, List.length_nil, ne_eq, not_true_eq_false, if_false]
+
+/-- shape of `beltCBCStepE` on a buffer with a ragged tail: with `s1` the chaining block after `pre` and
+`c = E(s1 ^ last)`, the output is `E-CBC(pre) ++ E((tail ^ c[0..k)) ++ c[k..16)) ++ c[0..k)`. -/
+theorem cbcE_ragged (f : Bytes → Bytes) (iv pre last tail c : Bytes)
+    (hpre : pre.length % 16 = 0) (hlast : last.length = 16) (ht0 : 0 < tail.length) (ht : tail.length < 16)
+    (hc : c = f (xorb (fullBlocks 16 (cbcEB f) iv pre).1 last)) (hcl : c.length = 16) :
+    cbcE f iv (pre ++ last ++ tail) =
+      (c, (fullBlocks 16 (cbcEB f) iv pre).2.1
+            ++ f (xorb tail (c.take tail.length) ++ c.drop tail.length) ++ c.take tail.length) := by
+  have hl : fullBlocks 16 (cbcEB f) iv (pre ++ last ++ tail)
+      = (c, (fullBlocks 16 (cbcEB f) iv pre).2.1 ++ c, tail) := by
+    rw [List.append_assoc, fullBlocks_append _ _ pre _ hpre, fullBlocks_cons _ _ last tail hlast]
+    have hbody : cbcEB f (fullBlocks 16 (cbcEB f) iv pre).1 last = (c, c) := by rw [hc]; rfl
+    rw [hbody]
+    simp only [fullBlocks_short _ _ tail ht, List.append_nil]
+  have hne : tail.length ≠ 0 := by omega
+  have htk : (c.take tail.length).length = tail.length := by simp only [List.length_take]; omega
+  simp only [cbcE, hl, hne, ne_eq, not_false_eq_true, if_true, stealSwap, xorPrefix, List.length_append, hcl,
+    Nat.add_sub_cancel, htk]
+  rw [List.drop_left' rfl, List.take_left' rfl, xorb_append_left _ _ _ htk, List.drop_left' rfl]
+
+theorem cbcD_whole (g : Bytes → Bytes) (s : Bytes × Bytes) (cx : Bytes) (hcx : cx.length % 16 = 0) :
+    cbcD g s cx = ((fullBlocks 16 (cbcDB g) s cx).1, (fullBlocks 16 (cbcDB g) s cx).2.1) := by
+  have hl := blockLoop_append (fun n => decide (32 ≤ n) || n == 16) (cbcDB g) cbcD_cond []
+    (by intro m h1 h2; simp; omega) cx hcx s cx.length (by simp)
+  simp only [List.append_nil, List.length_nil, blockLoop] at hl
+  simp only [cbcD, hl, List.length_nil, ne_eq, not_true_eq_false, if_false]
+
+/-- shape of `beltCBCStepD` on `whole blocks ++ one block ++ ragged tail`: the loop stops before `y`. -/
+theorem cbcD_ragged (g : Bytes → Bytes) (s : Bytes × Bytes) (cx y t : Bytes)
+    (hcx : cx.length % 16 = 0) (hy : y.length = 16) (ht0 : 0 < t.length) (ht : t.length < 16) :
+    cbcD g s (cx ++ y ++ t) =
+      ((fullBlocks 16 (cbcDB g) s cx).1,
+       (fullBlocks 16 (cbcDB g) s cx).2.1
+         ++ xorb (g (t ++ (g y).drop t.length)) (fullBlocks 16 (cbcDB g) s cx).1.1
+         ++ xorb ((g y).take t.length) ((t ++ (g y).drop t.length).take t.length)) := by
+  have hl := blockLoop_append (fun n => decide (32 ≤ n) || n == 16) (cbcDB g) cbcD_cond (y ++ t)
+    (by intro m h1 h2; simp [hy]; omega) cx hcx s (cx ++ y ++ t).length (by simp)
+  have hstop : blockLoop 16 (fun n => decide (32 ≤ n) || n == 16) (cbcDB g) (y ++ t).length
+      (fullBlocks 16 (cbcDB g) s cx).1 (y ++ t) = ((fullBlocks 16 (cbcDB g) s cx).1, [], y ++ t) :=
+    blockLoop_stop _ _ _ _ _ _ (by rw [List.length_append, hy]; exact cbcD_cond_stop _ ht0 ht)
+  rw [hstop, ← List.append_assoc] at hl
+  have hne : (y ++ t).length ≠ 0 := by rw [List.length_append, hy]; omega
+  simp only [cbcD, hl, hne, ne_eq, not_false_eq_true, if_true, List.append_nil]
+  rw [List.take_left' hy, List.drop_left' hy]
+
+theorem cbcE_loop_len (f : Bytes → Bytes) (hlen : ∀ x, x.length = 16 → (f x).length = 16) :
+    ∀ x : Bytes, x.length % 16 = 0 → ∀ iv : Bytes, iv.length = 16 →
+      (fullBlocks 16 (cbcEB f) iv x).2.1.length = x.length ∧ (fullBlocks 16 (cbcEB f) iv x).1.length = 16 := by
+  intro x hx
+  refine whole_induction (P := fun x => ∀ iv : Bytes, iv.length = 16 →
+      (fullBlocks 16 (cbcEB f) iv x).2.1.length = x.length ∧ (fullBlocks 16 (cbcEB f) iv x).1.length = 16)
+    ?_ ?_ x hx
+  · intro iv hiv
+    simp only [fullBlocks_nil, List.length_nil, hiv, and_self]
+  · intro b rest hb _ ih iv hiv
+    have hx16 : (xorb iv b).length = 16 := by rw [length_xorb]; omega
+    have hc : (f (xorb iv b)).length = 16 := hlen _ hx16
+    obtain ⟨ih1, ih2⟩ := ih (f (xorb iv b)) hc
+    have hbody : cbcEB f iv b = (f (xorb iv b), f (xorb iv b)) := rfl
+    rw [fullBlocks_cons _ iv b rest hb, hbody]
+    simp only [List.length_append, hc, hb, ih1, ih2, and_self]
+
+theorem length_cbcE (f : Bytes → Bytes) (hlen : ∀ x, x.length = 16 → (f x).length = 16)
+    (iv buf : Bytes) (hiv : iv.length = 16) (h16 : 16 ≤ buf.length) : (cbcE f iv buf).2.length = buf.length := by
+  by_cases hr : buf.length % 16 = 0
+  · rw [cbcE_whole f iv buf hr]
+    exact (cbcE_loop_len f hlen buf hr iv hiv).1
+  · obtain ⟨pre, last, tail, rfl, hpre, hlast, ht0, ht⟩ := ragged_decomp buf h16 hr
+    obtain ⟨h1, h2⟩ := cbcE_loop_len f hlen pre hpre iv hiv
+    have hx16 : (xorb (fullBlocks 16 (cbcEB f) iv pre).1 last).length = 16 := by rw [length_xorb]; omega
+    have hcl := hlen _ hx16
+    rw [cbcE_ragged f iv pre last tail _ hpre hlast ht0 ht rfl hcl]
+    generalize f (xorb (fullBlocks 16 (cbcEB f) iv pre).1 last) = c at hcl
+    have h3 : (xorb tail (c.take tail.length) ++ c.drop tail.length).length = 16 := by
+      simp only [List.length_append, length_xorb, List.length_take, List.length_drop]; omega
+    simp only [List.length_append, h1, hlen _ h3, List.length_take, hlast]
+    omega
+
+/-- `beltCBCStepD` undoes `beltCBCStepE` (same chaining block at the start), every admissible length -/
+theorem cbcD_cbcE (f g : Bytes → Bytes) (hlen : ∀ x, x.length = 16 → (f x).length = 16)
+    (hgf : ∀ x, x.length = 16 → g (f x) = x) (iv s2 buf : Bytes) (hiv : iv.length = 16)
+    (h16 : 16 ≤ buf.length) : (cbcD g (iv, s2) (cbcE f iv buf).2).2 = buf := by
+  by_cases hr : buf.length % 16 = 0
+  · obtain ⟨h1, h2, h3, h4⟩ := cbc_whole f g hlen hgf buf hr iv s2 hiv
+    rw [cbcE_whole f iv buf hr]
+    simp only
+    rw [cbcD_whole g _ _ (by rw [h1]; exact hr)]
+    exact h3
+  · obtain ⟨pre, last, tail, rfl, hpre, hlast, ht0, ht⟩ := ragged_decomp buf h16 hr
+    obtain ⟨h1, h2, h3, h4⟩ := cbc_whole f g hlen hgf pre hpre iv s2 hiv
+    have hx16 : (xorb (fullBlocks 16 (cbcEB f) iv pre).1 last).length = 16 := by rw [length_xorb]; omega
+    have hcl := hlen _ hx16
+    have hgc := hgf _ hx16
+    rw [cbcE_ragged f iv pre last tail _ hpre hlast ht0 ht rfl hcl]
+    generalize f (xorb (fullBlocks 16 (cbcEB f) iv pre).1 last) = c at hcl hgc
+    have htk : (c.take tail.length).length = tail.length := by simp only [List.length_take]; omega
+    have hxk : (xorb tail (c.take tail.length)).length = tail.length := by rw [length_xorb]; omega
+    have h5 : (xorb tail (c.take tail.length) ++ c.drop tail.length).length = 16 := by
+      simp only [List.length_append, hxk, List.length_drop]; omega
+    simp only
+    rw [cbcD_ragged g (iv, s2) _ _ _ (by rw [h1]; exact hpre) (hlen _ h5) (by omega) (by omega)]
+    simp only [htk, hgf _ h5, h3, h4]
+    rw [List.drop_left' hxk, List.take_left' hxk, List.take_append_drop, hgc,
+      xorb_xorb_cancel _ _ (by omega), xorb_xorb_cancel_left _ _ (by omega)]
+
+/-! ### spec-level characterisations on whole blocks -/
+
+theorem chunks16_nil : chunks16 [] = [] := by
+  rw [chunks16]; simp
+
+theorem chunks16_block (b : Bytes) (hb : b.length = 16) : chunks16 b = [b] := by
+  rw [chunks16]
+  have hne : b.isEmpty = false := by cases b with
+    | nil => simp at hb
+    | cons _ _ => rfl
+  simp [hb, hne]
+
+theorem chunks16_cons (b rest : Bytes) (hb : b.length = 16) (hr : rest ≠ []) :
+    chunks16 (b ++ rest) = b :: chunks16 rest := by
+  rw [chunks16]
+  have hpos : 0 < rest.length := List.length_pos_iff.mpr hr
+  have hn : ¬ (b ++ rest).length ≤ 16 := by simp only [List.length_append]; omega
+  rw [dif_neg hn, List.take_left' hb, List.drop_left' hb]
+
+/-- on whole blocks the ECB loop is `flatMap` over the 16-octet chunks -/
+theorem mapB_eq_flatMap (f : Bytes → Bytes) :
+    ∀ x : Bytes, x.length % 16 = 0 → mapB f x = (chunks16 x).flatMap f := by
+  intro x hx
+  refine whole_induction (P := fun x => mapB f x = (chunks16 x).flatMap f) ?_ ?_ x hx
+  · simp [mapB_nil, chunks16_nil]
+  · intro b rest hb _ ih
+    by_cases hr : rest = []
+    · subst hr
+      simp [mapB_block f b hb, chunks16_block b hb]
+    · rw [mapB_cons f b rest hb, chunks16_cons b rest hb hr, ih]
+      simp
+
+/-- the CBC chaining equation `c_i = f(c_{i-1} ^ p_i)`, `c_0 = prev` -/
+def cbcChain (f : Bytes → Bytes) : Bytes → List Bytes → List Bytes
+  | _, [] => []
+  | prev, p :: ps => f (xorb prev p) :: cbcChain f (f (xorb prev p)) ps
+
+theorem cbcE_loop_eq_chain (f : Bytes → Bytes) :
+    ∀ x : Bytes, x.length % 16 = 0 → ∀ iv : Bytes,
+      (fullBlocks 16 (cbcEB f) iv x).2.1 = (cbcChain f iv (chunks16 x)).flatten := by
+  intro x hx
+  refine whole_induction (P := fun x => ∀ iv : Bytes,
+      (fullBlocks 16 (cbcEB f) iv x).2.1 = (cbcChain f iv (chunks16 x)).flatten) ?_ ?_ x hx
+  · intro iv; simp [fullBlocks_nil, chunks16_nil, cbcChain]
+  · intro b rest hb _ ih iv
+    have hbody : cbcEB f iv b = (f (xorb iv b), f (xorb iv b)) := rfl
+    rw [fullBlocks_cons _ iv b rest hb, hbody]
+    by_cases hr : rest = []
+    · subst hr
+      simp [fullBlocks_nil, chunks16_block b hb, cbcChain]
+    · simp only [chunks16_cons b rest hb hr, cbcChain, List.flatten_cons, ih]
+
+/-! ### a toy cipher for non-vacuity examples -/
+
+/-- add 1 to / subtract 1 from every octet (the key is ignored) -/
+def toyCipher : Cipher := ⟨fun _ x => x.map (· + 1), fun _ x => x.map (· - 1)⟩
+
+theorem toy_len_enc (k x : Bytes) : (toyCipher.enc k x).length = x.length := by simp [toyCipher]
+theorem toy_len_dec (k x : Bytes) : (toyCipher.dec k x).length = x.length := by simp [toyCipher]
+theorem toy_dec_enc (k x : Bytes) : toyCipher.dec k (toyCipher.enc k x) = x := by
+  simp only [toyCipher, List.map_map]
+  have : ((fun (a : UInt8) => a - 1) ∘ fun a => a + 1) = id := by funext a; simp only [Function.comp]; grind
+  rw [this, List.map_id]
+theorem toy_enc_dec (k x : Bytes) : toyCipher.enc k (toyCipher.dec k x) = x := by
+  simp only [toyCipher, List.map_map]
+  have : ((fun (a : UInt8) => a + 1) ∘ fun a => a - 1) = id := by funext a; simp only [Function.comp]; grind
+  rw [this, List.map_id]
+
+/-! ### the argument check of the high-level functions -/
+
+theorem badCond_iff (n len : Nat) :
+    (decide (n < 16) || !validKeyLen len) = true ↔ (n < 16 ∨ ¬ (len = 16 ∨ len = 24 ∨ len = 32)) := by
+  simp [validKeyLen, and_assoc]
+
+/-! ### CBC: encryption undoes decryption -/
+
+theorem xorb_cancel_mid (a b : Bytes) (h : b.length = a.length) : xorb a (xorb b a) = b := by
+  rw [xorb_comm a, xorb_xorb_cancel b a (by omega)]
+
+theorem cbc_whole' (f g : Bytes → Bytes) (hlen : ∀ x, x.length = 16 → (g x).length = 16)
+    (hfg : ∀ x, x.length = 16 → f (g x) = x) :
+    ∀ cx : Bytes, cx.length % 16 = 0 → ∀ iv s2 : Bytes, iv.length = 16 →
+      (fullBlocks 16 (cbcDB g) (iv, s2) cx).2.1.length = cx.length ∧
+      (fullBlocks 16 (cbcDB g) (iv, s2) cx).1.1.length = 16 ∧
+      (fullBlocks 16 (cbcEB f) iv (fullBlocks 16 (cbcDB g) (iv, s2) cx).2.1).2.1 = cx ∧
+      (fullBlocks 16 (cbcEB f) iv (fullBlocks 16 (cbcDB g) (iv, s2) cx).2.1).1
+        = (fullBlocks 16 (cbcDB g) (iv, s2) cx).1.1 := by
+  intro cx hcx
+  refine whole_induction (P := fun cx => ∀ iv s2 : Bytes, iv.length = 16 →
+      (fullBlocks 16 (cbcDB g) (iv, s2) cx).2.1.length = cx.length ∧
+      (fullBlocks 16 (cbcDB g) (iv, s2) cx).1.1.length = 16 ∧
+      (fullBlocks 16 (cbcEB f) iv (fullBlocks 16 (cbcDB g) (iv, s2) cx).2.1).2.1 = cx ∧
+      (fullBlocks 16 (cbcEB f) iv (fullBlocks 16 (cbcDB g) (iv, s2) cx).2.1).1
+        = (fullBlocks 16 (cbcDB g) (iv, s2) cx).1.1) ?_ ?_ cx hcx
+  · intro iv s2 hiv
+    simp only [fullBlocks_nil, List.length_nil, hiv, and_self]
+  · intro b rest hb _ ih iv s2 hiv
+    have hg := hlen b hb
+    have hp : (xorb (g b) iv).length = 16 := by rw [length_xorb]; omega
+    obtain ⟨ih1, ih2, ih3, ih4⟩ := ih b b hb
+    have hbody : cbcDB g (iv, s2) b = ((b, b), xorb (g b) iv) := rfl
+    rw [fullBlocks_cons _ (iv, s2) b rest hb, hbody]
+    simp only
+    rw [fullBlocks_cons _ iv (xorb (g b) iv) _ hp]
+    have hbody2 : cbcEB f iv (xorb (g b) iv) = (b, b) := by
+      simp only [cbcEB, xorb_cancel_mid iv (g b) (by omega), hfg b hb]
+    rw [hbody2]
+    simp only [List.length_append, hp, hb, ih1, ih2, ih3, ih4, and_self]
+
+/-- `beltCBCStepE` undoes `beltCBCStepD` (same chaining block at the start), every admissible length -/
+theorem cbcE_cbcD (f g : Bytes → Bytes) (hlen : ∀ x, x.length = 16 → (g x).length = 16)
+    (hfg : ∀ x, x.length = 16 → f (g x) = x) (iv s2 buf : Bytes) (hiv : iv.length = 16)
+    (h16 : 16 ≤ buf.length) : (cbcE f iv (cbcD g (iv, s2) buf).2).2 = buf := by
+  by_cases hr : buf.length % 16 = 0
+  · obtain ⟨h1, h2, h3, h4⟩ := cbc_whole' f g hlen hfg buf hr iv s2 hiv
+    rw [cbcD_whole g _ buf hr]
+    simp only
+    rw [cbcE_whole f iv _ (by rw [h1]; exact hr)]
+    exact h3
+  · obtain ⟨cx, y, t, rfl, hcx, hy, ht0, ht⟩ := ragged_decomp buf h16 hr
+    obtain ⟨h1, h2, h3, h4⟩ := cbc_whole' f g hlen hfg cx hcx iv s2 hiv
+    have hgy := hlen y hy
+    have hb1 : (t ++ (g y).drop t.length).length = 16 := by
+      simp only [List.length_append, List.length_drop]; omega
+    have hgb1 := hlen _ hb1
+    have hb2 : (xorb (g (t ++ (g y).drop t.length)) (fullBlocks 16 (cbcDB g) (iv, s2) cx).1.1).length = 16 := by
+      rw [length_xorb]; omega
+    have htk : ((g y).take t.length).length = t.length := by simp only [List.length_take]; omega
+    have ht2 : (xorb ((g y).take t.length) ((t ++ (g y).drop t.length).take t.length)).length = t.length := by
+      rw [List.take_left' rfl, length_xorb]; omega
+    rw [cbcD_ragged g (iv, s2) cx y t hcx hy ht0 ht]
+    simp only
+    rw [cbcE_ragged f iv _ _ _ (t ++ (g y).drop t.length) (by rw [h1]; exact hcx) hb2 (by omega) (by omega)
+      (by rw [h4, xorb_cancel_mid _ _ (by omega), hfg _ hb1]) hb1]
+    simp only [ht2, h3]
+    rw [List.take_left' rfl, List.drop_left' rfl, xorb_xorb_cancel _ _ (by omega), List.take_append_drop,
+      hfg y hy]
+
+theorem cbcD_loop_len (g : Bytes → Bytes) (hlen : ∀ x, x.length = 16 → (g x).length = 16) :
+    ∀ cx : Bytes, cx.length % 16 = 0 → ∀ s : Bytes × Bytes, s.1.length = 16 →
+      (fullBlocks 16 (cbcDB g) s cx).2.1.length = cx.length ∧ (fullBlocks 16 (cbcDB g) s cx).1.1.length = 16 := by
+  intro cx hcx
+  refine whole_induction (P := fun cx => ∀ s : Bytes × Bytes, s.1.length = 16 →
+      (fullBlocks 16 (cbcDB g) s cx).2.1.length = cx.length ∧ (fullBlocks 16 (cbcDB g) s cx).1.1.length = 16)
+    ?_ ?_ cx hcx
+  · intro s hs
+    simp only [fullBlocks_nil, List.length_nil, hs, and_self]
+  · intro b rest hb _ ih s hs
+    have hg := hlen b hb
+    have hp : (xorb (g b) s.1).length = 16 := by rw [length_xorb]; omega
+    obtain ⟨ih1, ih2⟩ := ih (b, b) hb
+    have hbody : cbcDB g s b = ((b, b), xorb (g b) s.1) := rfl
+    rw [fullBlocks_cons _ s b rest hb, hbody]
+    simp only [List.length_append, hp, hb, ih1, ih2, and_self]
+
+theorem length_cbcD (g : Bytes → Bytes) (hlen : ∀ x, x.length = 16 → (g x).length = 16)
+    (s : Bytes × Bytes) (buf : Bytes) (hs : s.1.length = 16) (h16 : 16 ≤ buf.length) :
+    (cbcD g s buf).2.length = buf.length := by
+  by_cases hr : buf.length % 16 = 0
+  · rw [cbcD_whole g s buf hr]
+    exact (cbcD_loop_len g hlen buf hr s hs).1
+  · obtain ⟨cx, y, t, rfl, hcx, hy, ht0, ht⟩ := ragged_decomp buf h16 hr
+    obtain ⟨h1, h2⟩ := cbcD_loop_len g hlen cx hcx s hs
+    have hgy := hlen y hy
+    have hb1 : (t ++ (g y).drop t.length).length = 16 := by
+      simp only [List.length_append, List.length_drop]; omega
+    have hgb1 := hlen _ hb1
+    rw [cbcD_ragged g s cx y t hcx hy ht0 ht]
+    simp only [List.length_append, length_xorb, List.length_take, List.length_drop, h1, h2, hgb1, hgy, hy]
+    omega
 
 end Bee2V.C01
